@@ -12,7 +12,7 @@ use remoc::{
 use serde::{Deserialize, Serialize};
 use std::{collections::BTreeMap, sync::Arc, time::Duration};
 
-use super::c04::{base_pair, typed_cfg};
+use super::c04::{base_pair, base_pair_named, typed_cfg};
 use crate::{
     net::LinkOpts,
     report::Tier,
@@ -27,14 +27,18 @@ pub struct Val {
     pub pad: Vec<u8>,
 }
 
-fn val(sender: u8, seq: u32) -> Val {
+fn val(sender: u8, seq: u32, big: bool) -> Val {
+    if big {
+        // every value spans several chunks, four of them exceed the receive buffer
+        return Val { sender, seq, pad: (0..70).map(|i| (i as u32 * 5 + seq + sender as u32) as u8).collect() };
+    }
     // value 2 spans several chunks (chunk size 32) but stays below max_data_size
     let n = if seq == 2 { 70 } else { 3 };
     Val { sender, seq, pad: (0..n).map(|i| (i as u32 * 5 + seq + sender as u32) as u8).collect() }
 }
 
-fn val_ok(v: &Val) -> bool {
-    *v == val(v.sender, v.seq)
+fn val_ok(v: &Val, big: bool) -> bool {
+    *v == val(v.sender, v.seq, big)
 }
 
 #[derive(Serialize, Deserialize)]
@@ -375,19 +379,24 @@ pub struct TypedCloseScenario {
     /// only after it has become observable; otherwise everything runs concurrently
     pub settle: bool,
     pub sched: bool,
+    /// 2 = the travelling half is sent on from the second endpoint to a third one (forwarding)
+    pub hops: u8,
+    /// racing mode with large values: after `after` values the receiver stops consuming until nothing else
+    /// can move (senders and forwarders are then blocked on flow credit), and only then acts
+    pub stall: bool,
 }
 
 const N: u32 = 4;
 
 impl Scenario for TypedCloseScenario {
     fn id(&self) -> String {
-        format!("c11t/{:?}/{:?}/after{}/settle{}/s{}", self.chan, self.ev, self.after, self.settle as u8, self.sched as u8)
+        format!("c11t/{:?}/{:?}/after{}/settle{}/s{}/h{}/st{}", self.chan, self.ev, self.after, self.settle as u8, self.sched as u8, self.hops, self.stall as u8)
     }
 
     fn start(&self, env: Env) -> (BoxFuture<'static, ()>, Judge) {
         let obs = shared(TObs::default());
         let o2 = obs.clone();
-        let (chan, ev, after, settle, sched) = (self.chan, self.ev, self.after, self.settle, self.sched);
+        let (chan, ev, after, settle, sched, hops, stall) = (self.chan, self.ev, self.after, self.settle, self.sched, self.hops, self.stall);
         let root = async move {
             env.explore(false);
             let link = LinkOpts { capacity: 2, deliver_cap: 2, eof_on_drop: false };
@@ -399,7 +408,19 @@ impl Scenario for TypedCloseScenario {
                     return;
                 }
             };
-            // ships one carrier from A to B (concurrently sent and received)
+            // optional second connection B2 - C for forwarded halves
+            let mut second = None;
+            if hops == 2 {
+                match base_pair_named::<Carrier, Carrier, (), ()>(&env, "B2", 3, "C", 4, typed_cfg(), typed_cfg(), link).await {
+                    Ok(((t, _r0, k1, k2), (_t0, r, k3, k4))) => second = Some((t, r, (k1, k2, k3, k4, _r0, _t0))),
+                    Err(e) => {
+                        o2.lock().unwrap().err = Some(e);
+                        return;
+                    }
+                }
+            }
+            let far: u8 = if hops == 2 { 4 } else { 2 };
+            // ships one carrier from A to B, and on to C when there are two hops (concurrently sent and received)
             macro_rules! ship {
                 ($c:expr) => {{
                     let (s, r) = tokio::join!(a_tx.send($c), b_rx.recv());
@@ -407,11 +428,28 @@ impl Scenario for TypedCloseScenario {
                         o2.lock().unwrap().err = Some(format!("ship: {e}"));
                         return;
                     }
-                    match r {
+                    let c1 = match r {
                         Ok(Some(c)) => c,
                         other => {
                             o2.lock().unwrap().err = Some(format!("ship recv: {:?}", other.map(|_| ()).map_err(|e| e.to_string())));
                             return;
+                        }
+                    };
+                    match second.as_mut() {
+                        None => c1,
+                        Some((t2, r2, _)) => {
+                            let (s, r) = tokio::join!(t2.send(c1), r2.recv());
+                            if let Err(e) = s {
+                                o2.lock().unwrap().err = Some(format!("ship 2: {e}"));
+                                return;
+                            }
+                            match r {
+                                Ok(Some(c)) => c,
+                                other => {
+                                    o2.lock().unwrap().err = Some(format!("ship 2 recv: {:?}", other.map(|_| ()).map_err(|e| e.to_string())));
+                                    return;
+                                }
+                            }
                         }
                     }
                 }};
@@ -435,12 +473,12 @@ impl Scenario for TypedCloseScenario {
                     }
                     if chan == TChan::MpscTwoAway {
                         match ship!(Carrier::MpscTx(tx.clone())) {
-                            Carrier::MpscTx(t) => txs.push((1, Box::new(MpscTx(t, true)), 2)),
+                            Carrier::MpscTx(t) => txs.push((1, Box::new(MpscTx(t, true)), far)),
                             _ => return,
                         }
                     }
                     match ship!(Carrier::MpscTx(tx)) {
-                        Carrier::MpscTx(t) => txs.push((0, Box::new(MpscTx(t, true)), 2)),
+                        Carrier::MpscTx(t) => txs.push((0, Box::new(MpscTx(t, true)), far)),
                         _ => return,
                     }
                     rx = Box::new(MpscRx(r));
@@ -453,14 +491,14 @@ impl Scenario for TypedCloseScenario {
                         Carrier::MpscRx(r) => rx = Box::new(MpscRx(r)),
                         _ => return,
                     }
-                    rx_tag = 2;
+                    rx_tag = far;
                     txs.push((0, Box::new(MpscTx(tx, true)), 1));
                     keep.push(Box::new((a_tx, a_rx, b_tx, b_rx)));
                 }
                 TChan::LrTxAway => {
                     let (tx, r) = lr::channel::<Val, remoc::codec::Default>();
                     match ship!(Carrier::LrTx(tx)) {
-                        Carrier::LrTx(t) => txs.push((0, Box::new(LrTx(t)), 2)),
+                        Carrier::LrTx(t) => txs.push((0, Box::new(LrTx(t)), far)),
                         _ => return,
                     }
                     rx = Box::new(LrRx(r));
@@ -473,14 +511,14 @@ impl Scenario for TypedCloseScenario {
                         Carrier::LrRx(r) => rx = Box::new(LrRx(r)),
                         _ => return,
                     }
-                    rx_tag = 2;
+                    rx_tag = far;
                     txs.push((0, Box::new(LrTx(tx)), 1));
                     keep.push(Box::new((a_tx, a_rx, b_tx, b_rx)));
                 }
                 TChan::OneTxAway => {
                     let (tx, r) = oneshot::channel::<Val, remoc::codec::Default>();
                     match ship!(Carrier::OneTx(tx)) {
-                        Carrier::OneTx(t) => txs.push((0, Box::new(OneTx(Some(t))), 2)),
+                        Carrier::OneTx(t) => txs.push((0, Box::new(OneTx(Some(t))), far)),
                         _ => return,
                     }
                     rx = Box::new(OneRx(Some(r), false));
@@ -493,7 +531,7 @@ impl Scenario for TypedCloseScenario {
                         Carrier::OneRx(r) => rx = Box::new(OneRx(Some(r), false)),
                         _ => return,
                     }
-                    rx_tag = 2;
+                    rx_tag = far;
                     txs.push((0, Box::new(OneTx(Some(tx))), 1));
                     keep.push(Box::new((a_tx, a_rx, b_tx, b_rx)));
                 }
@@ -501,12 +539,12 @@ impl Scenario for TypedCloseScenario {
                     let (tx, r) = bin::channel();
                     let (tx, r, tx_tag, r_tag) = if chan == TChan::BinTxAway {
                         match ship!(Carrier::BinTx(tx)) {
-                            Carrier::BinTx(t) => (t, r, 2, 1),
+                            Carrier::BinTx(t) => (t, r, far, 1),
                             _ => return,
                         }
                     } else {
                         match ship!(Carrier::BinRx(r)) {
-                            Carrier::BinRx(rr) => (tx, rr, 1, 2),
+                            Carrier::BinRx(rr) => (tx, rr, 1, far),
                             _ => return,
                         }
                     };
@@ -556,7 +594,7 @@ impl Scenario for TypedCloseScenario {
                                 }
                             }
                         }
-                        let (out, h) = tx.send(val(id, seq)).await;
+                        let (out, h) = tx.send(val(id, seq, stall)).await;
                         let stop = matches!(out, SendOut::Refused(_));
                         let idx = {
                             let mut o = o3.lock().unwrap();
@@ -610,7 +648,7 @@ impl Scenario for TypedCloseScenario {
                         l.closed_reason = resolved.ok().flatten();
                     }
                     if !refused {
-                        let (out, _h) = tx.send(val(id, 99)).await;
+                        let (out, _h) = tx.send(val(id, 99, stall)).await;
                         let mut o = o3.lock().unwrap();
                         let l = o.senders.get_mut(&id).unwrap();
                         l.sends.push((99, out.clone(), None));
@@ -620,6 +658,7 @@ impl Scenario for TypedCloseScenario {
                 }));
             }
             let o4 = o2.clone();
+            let env_rx = env.clone();
             let receiver = env.spawn("receiver", rx_tag, async move {
                 let mut rx = Some(rx);
                 let mut got = 0usize;
@@ -629,6 +668,9 @@ impl Scenario for TypedCloseScenario {
                     let now = !settle && got >= after;
                     if !did && matches!(ev, Ev::CloseRx | Ev::DropRx) && now {
                         did = true;
+                        if stall {
+                            env_rx.quiesce().await;
+                        }
                         {
                             let mut o = o4.lock().unwrap();
                             o.event_done = true;
@@ -728,6 +770,7 @@ impl Scenario for TypedCloseScenario {
                 o2.lock().unwrap().recv_end = Some("hang".into());
             }
             drop(keep);
+            drop(second);
             drop((ca, la, cb, lb));
         };
         let judge: Judge = Box::new(move |out: &Outcome| {
@@ -740,6 +783,11 @@ impl Scenario for TypedCloseScenario {
             } else if out.ending != Ending::Completed {
                 v.fail("C11", format!("typed-stuck:{tag}"), format!("{:?}", out.ending));
             } else {
+                // through a forwarding endpoint a Sending handle only says that the forwarder got the value, and
+                // the forwarder re-classifies what it sees downstream; ports / bin channels are forwarded by
+                // chmux::forward, which keeps delivering after a graceful close
+                let strict_delivery = hops == 1 || matches!(chan, TChan::BinTxAway | TChan::BinRxAway);
+                let strict_class = hops == 1;
                 let expected_reason = match ev {
                     Ev::CloseRx => "closed",
                     Ev::DropRx => "dropped",
@@ -747,7 +795,7 @@ impl Scenario for TypedCloseScenario {
                     Ev::DropTx => "",
                 };
                 for v0 in &o.received {
-                    if !val_ok(v0) {
+                    if !val_ok(v0, stall) {
                         v.fail("C11", format!("typed-value-corrupted:{tag}"), format!("{v0:?}"));
                     }
                 }
@@ -764,6 +812,13 @@ impl Scenario for TypedCloseScenario {
                         Ev::DropTx => {
                             if !missing.is_empty() {
                                 v.fail("C11", format!("typed-eos-with-values-missing:{tag}"), ctx.clone());
+                            }
+                        }
+                        Ev::CloseRx if !strict_delivery => {
+                            for m in &missing {
+                                if m.2.as_deref() == Some("hang") {
+                                    v.fail("C11", format!("typed-sending-handle-hangs:{tag}"), ctx.clone());
+                                }
                             }
                         }
                         Ev::CloseRx => {
@@ -799,7 +854,7 @@ impl Scenario for TypedCloseScenario {
                         if l.closed_resolved == Some(false) {
                             v.fail("C11", format!("typed-not-observable-at-sender:{tag}"), ctx.clone());
                         }
-                        if let Some(r) = &l.closed_reason {
+                        if let (Some(r), true) = (&l.closed_reason, strict_class) {
                             if r != expected_reason {
                                 v.fail("C11", format!("typed-wrong-closed-reason:{tag}:{r}"), ctx.clone());
                             }
@@ -809,11 +864,13 @@ impl Scenario for TypedCloseScenario {
                             _ => None,
                         });
                         match (&refusal, &l.probe) {
-                            (None, Some(SendOut::Accepted)) => v.fail("C11", format!("typed-send-succeeds-after-event:{tag}"), ctx.clone()),
+                            // the property speaks of the remote sender: a sender next to the receiver keeps working after
+                            // close() for as long as a remote clone's forwarding task holds the queue open
+                            (None, Some(SendOut::Accepted)) if l.remote || ev != Ev::CloseRx => v.fail("C11", format!("typed-send-succeeds-after-event:{tag}"), ctx.clone()),
                             (Some(c), _) => {
                                 // a refusal that came while the event was still racing with sends may carry an earlier
                                 // classification only if it is the same one
-                                if c != expected_reason && c != "used" {
+                                if strict_class && c != expected_reason && c != "used" {
                                     v.fail("C11", format!("typed-wrong-classification:{tag}:{c}"), ctx.clone());
                                 }
                             }
@@ -891,7 +948,17 @@ pub fn grid(_tier: Tier) -> Vec<Arc<dyn Scenario>> {
             let max_after = if matches!(chan, TChan::OneTxAway | TChan::OneRxAway) { 1 } else { N as usize };
             for after in 0..=max_after {
                 for settle in [true, false] {
-                    out.push(Arc::new(TypedCloseScenario { chan, ev, after, settle, sched: false }));
+                    out.push(Arc::new(TypedCloseScenario { chan, ev, after, settle, sched: false, hops: 1, stall: false }));
+                    if !settle && !matches!(chan, TChan::OneTxAway | TChan::OneRxAway) && matches!(ev, Ev::CloseRx | Ev::DropRx) && after >= 1 && after <= 2 {
+                        out.push(Arc::new(TypedCloseScenario { chan, ev, after, settle, sched: false, hops: 1, stall: true }));
+                        if !matches!(chan, TChan::Base | TChan::MpscLocalAndAway | TChan::MpscTwoAway | TChan::LrTxAway | TChan::LrRxAway) {
+                            out.push(Arc::new(TypedCloseScenario { chan, ev, after, settle, sched: false, hops: 2, stall: true }));
+                        }
+                    }
+                    // forwarded through a middle endpoint
+                    if !matches!(chan, TChan::Base | TChan::MpscLocalAndAway | TChan::MpscTwoAway | TChan::LrTxAway | TChan::LrRxAway) && (after == 0 || after == 2 || after == max_after) {
+                        out.push(Arc::new(TypedCloseScenario { chan, ev, after, settle, sched: false, hops: 2, stall: false }));
+                    }
                 }
             }
         }
@@ -908,7 +975,7 @@ pub fn core(tier: Tier) -> Vec<Arc<dyn Scenario>> {
                 if matches!(chan, TChan::OneTxAway | TChan::OneRxAway) && after > 1 {
                     continue;
                 }
-                out.push(Arc::new(TypedCloseScenario { chan: *chan, ev, after, settle: false, sched: true }));
+                out.push(Arc::new(TypedCloseScenario { chan: *chan, ev, after, settle: false, sched: true, hops: 1, stall: false }));
             }
         }
     }
